@@ -146,6 +146,21 @@ Section Ord.
     intros. unfold SFltb. rewrite SFcompare_ord by assumption. unfold Z.ltb. destruct (ord x ?= ord y); reflexivity.
   Qed.
 
+  (** IEEE "x <= y" (ordered, hence neither is NaN) *)
+  Definition sf_le (x y : spec_float) : Prop := SFcompare x y = Some Lt \/ SFcompare x y = Some Eq.
+
+  Lemma sf_le_ord : forall x y,
+    valid_binary prec emax x = true -> valid_binary prec emax y = true -> sf_le x y ->
+    is_nan_sf x = false /\ is_nan_sf y = false /\ ord x <= ord y.
+  Proof.
+    intros x y Vx Vy H.
+    assert (Nx : is_nan_sf x = false) by (destruct x; try reflexivity; destruct H; discriminate).
+    assert (Ny : is_nan_sf y = false) by (destruct y; try reflexivity; destruct x; destruct H; discriminate).
+    split; [exact Nx|]. split; [exact Ny|].
+    unfold sf_le in H. rewrite (SFcompare_ord x y Vx Vy Nx Ny) in H.
+    destruct (Z.compare_spec (ord x) (ord y)); destruct H as [H|H]; try discriminate H; lia.
+  Qed.
+
   Lemma SFltb_nan_l : forall y, SFltb S754_nan y = false.
   Proof. reflexivity. Qed.
   Lemma SFltb_nan_r : forall x, SFltb x S754_nan = false.
